@@ -268,7 +268,9 @@ class CSSStyleSheet(cssutils.stylesheets.StyleSheet):
             rule.cssText = self._tokensupto2(tokenizer, token)
             if rule.wellformed:
                 self.insertRule(rule)
-            return 3
+                return 3
+            # an ignored rule does not end the part for @import etc.
+            return expected
 
         def mediarule(expected, seq, token, tokenizer):
             # parse and consume tokens in any case
@@ -276,7 +278,9 @@ class CSSStyleSheet(cssutils.stylesheets.StyleSheet):
             rule.cssText = self._tokensupto2(tokenizer, token)
             if rule.wellformed:
                 self.insertRule(rule)
-            return 3
+                return 3
+            # an ignored rule does not end the part for @import etc.
+            return expected
 
         def pagerule(expected, seq, token, tokenizer):
             # parse and consume tokens in any case
@@ -284,7 +288,9 @@ class CSSStyleSheet(cssutils.stylesheets.StyleSheet):
             rule.cssText = self._tokensupto2(tokenizer, token)
             if rule.wellformed:
                 self.insertRule(rule)
-            return 3
+                return 3
+            # an ignored rule does not end the part for @import etc.
+            return expected
 
         def unknownrule(expected, seq, token, tokenizer):
             # parse and consume tokens in any case
@@ -313,7 +319,9 @@ class CSSStyleSheet(cssutils.stylesheets.StyleSheet):
             rule.cssText = self._tokensupto2(tokenizer, token)
             if rule.wellformed:
                 self.insertRule(rule)
-            return 3
+                return 3
+            # an ignored rule does not end the part for @import etc.
+            return expected
 
         # save for possible reset
         oldCssRules = self.cssRules
